@@ -603,6 +603,9 @@ def pyx_events(src: str) -> dict[str, list[str]]:
                     evs.append("srand:seed" if good else "srand:other")
                 elif f in _LIBC_DRAWS or f in drawing:
                     evs.append("rand")
+            # a Python-level generator used from inside a kernel (numpy / random / torch): never admissible
+            if re.search(r"(?<![\w.])(np|numpy)\.random\.|(?<![\w.])random\.\w+\s*\(|torch\.(rand|manual_seed)|default_rng|RandomState", ln):
+                evs.append("pyrand")
             if re.search(r"(?<![\w.])seed\s*([-+*/%|&^]|//|<<|>>)?=(?!=)", ln):
                 seed_touched = True
         # keep the table small: runs of `rand` are one event
